@@ -64,7 +64,13 @@ fn probe_lane(m: &mut Mon, r: &mut Rng) {
     let n = match r.below(8) {
         0 => 1,
         1..=5 => r.usize(2, 8),
-        _ => r.usize(9, 40),
+        _ => {
+            if r.chance(0.05) {
+                r.usize(300, 3000)
+            } else {
+                r.usize(9, 40)
+            }
+        }
     };
     let class = r.pick(&[EndsClass::Strict, EndsClass::Dups, EndsClass::IntGrid, EndsClass::Positive, EndsClass::Bench, EndsClass::UlpWide]);
     let ends: Vec<f64> = gen_ends(r, n, class).into_iter().map(|e| if e.is_finite() { e.clamp(-1e6, 1e6) } else { 0.0 }).collect();
